@@ -234,12 +234,12 @@ def loop_stop(nq, slots, k):
 '''
 
 UNITF = r'''
-def stop_unit___KIND__(n: int, p1: int, p2: int, p3: int) -> bool:
+def stop_unit___KIND____SUF__(n: int, p1: int, p2: int, p3: int) -> bool:
     """
-    pre: 1 <= n <= 3 and 0 <= p1 <= 8 and 0 <= p2 <= 8 and 0 <= p3 <= 8
+    pre: 1 <= n <= 3 and __PLO__ <= p1 <= __PHI__ and 0 <= p2 <= 8 and 0 <= p3 <= 8
     post: _
     """
-    n = pick(n, 1, 3); plans = [pick(p, 0, 8) for p in (p1, p2, p3)][:n]
+    n = pick(n, 1, 3); plans = [pick(p1, __PLO__, __PHI__)] + [pick(p, 0, 8) for p in (p2, p3)]; plans = plans[:n]
     with NoTracing():
         return unit(["mem", "sqlite"][__KIND__], plans)
 '''
@@ -300,8 +300,14 @@ def _key_from_replay(args, kwargs, replay_out):
 
 def run(ctx: Ctx) -> None:
     kmax = 70
-    src = SRC + UNITF.replace("__KIND__", "0") + UNITF.replace("__KIND__", "1") + EXTRA.replace("KMAX", str(kmax))
-    conds = [Cond("stop_unit_0", "confirm", 900, keyfn=_key_from_replay), Cond("stop_unit_1", "confirm", 1500, keyfn=_key_from_replay),
+    src = SRC
+    conds = []
+    for kind in (0, 1):
+        for lo in (0, 3, 6):
+            src += UNITF.replace("__KIND__", str(kind)).replace("__SUF__", "" if lo == 0 else f"_p{lo}").replace("__PLO__", str(lo)).replace("__PHI__", str(lo + 2))
+            conds.append(Cond(f"stop_unit_{kind}" + ("" if lo == 0 else f"_p{lo}"), "confirm", 1500, keyfn=_key_from_replay))
+    src += EXTRA.replace("KMAX", str(kmax))
+    conds += [
              Cond("stop_during_loop", "confirm", 900, keyfn=_key_from_replay),
              Cond("twin", "refute", 60), Cond("canary_no_reroute", "refute", 120),
              Cond("finding_waits_child", "finding", 300, key="C11:stop-joins-a-task-waiting-for-a-queued-child",
